@@ -322,12 +322,13 @@ class CHECK(vlib.Check):
                 "LongStringData {_bigBuffer, _strlen, buffer length}; every memmove/memcpy, NUL write and SetLength): EnsureBufferSize, "
                 "GetNextBufferSize/NextPowerOfTwo (uint32 arithmetic), SetCstr, SetFromString, operator= (2), operator+= (String, const char*, char), "
                 "operator<< (int, bool), ++/--, InsertChars/InsertCharsAux (Prepend/AppendChars), Clear, ClearAndFlush, Prealloc, ShrinkToFit, "
-                "TruncateChars, TruncateToLength, SwapContents/move, operator-= (3 forms), Reverse, Replace(char), operator[] write, copy/substring/"
+                "TruncateChars, TruncateToLength, SwapContents/move, operator-= (3 forms), Reverse, Replace(char), Replace(String,String) (the in-place "
+                "and the copy-and-swap pointer loops over strstr), operator[] write, copy/substring/"
                 "prealloc constructors, Flatten/Unflatten, and the producers composed from them as the code composes them: Substring (5 forms), "
                 "WithInsert/WithAppend/WithPrepend (String, const char*, char), PaddedBy, IndentedBy, ToLower/Upper/MixedCase, Trimmed, "
                 "WithReplacements (2), Arg(String/const char*/int), WithSuffix/WithPrefix (String, char), WithoutSuffix/WithoutPrefix (String, char) "
                 "and their IgnoreCase forms, WithoutNumericSuffix, WithInserted/Appended/PrependedWord, WithCharsEscaped, operator+. "
-                "Effect level (storage decisions modelled, scan by the level-0 function): Replace(String,String). Level 0 only (read-only; libc "
+                "operator+ (String/char/const char* on either side), operator- (String, char). Level 0 only (read-only; libc "
                 "strstr/strcmp/strcasecmp underneath): IndexOf/LastIndexOf/Contains/GetNumInstancesOf/StartsWith/EndsWith/CompareTo/Equals/"
                 "comparison operators and their IgnoreCase forms, CharAt, ParseNumericSuffix, StartsWithNumber, GetDistanceTo, "
                 "NumericAwareCompareTo(+IgnoreCase). Harness oracles only: HashCode/HashCode64/CalculateChecksum (equal across storage modes), "
